@@ -14,10 +14,11 @@
     < unary < ^; .. and ^ right associative) plus Luau's "//" at the level of "*".
 
     Fragment: the 16 binary and 3 unary operators, explicit parentheses as nodes
-    ([EParen], as darklua's [Expression::Parenthese]), type casts [ECast x k] (the type is
-    abstract: [CBare] = a type name without type parameters, [T] or [mod.T], after which
-    Luau reads a following "<" as the start of type parameters; [CParam] = any other type)
-    and abstract atoms (anything the generator never parenthesises and that begins and ends
+    ([EParen], as darklua's [Expression::Parenthese]), type casts [ECast x t] over a small type
+    AST [ty] (one constructor per arm of the type loop of
+    [ends_with_type_cast_to_type_name_without_type_parameters]; after a type whose text ends
+    with a type name without type parameters Luau reads a following "<" as the start of type
+    parameters) and abstract atoms (anything the generator never parenthesises and that begins and ends
     inside itself: names, literals, calls, indexing, tables, functions).  If-expressions are
     outside. *)
 From DL Require Import Lib.Bytes.
@@ -44,22 +45,51 @@ Definition unop_index (u : unop) : nat := match u with Length => 0 | Neg => 1 | 
 Definition binop_eqb (a b : binop) : bool := Nat.eqb (binop_index a) (binop_index b).
 Definition unop_eqb (a b : unop) : bool := Nat.eqb (unop_index a) (unop_index b).
 
-Inductive ckind := CBare | CParam.
-Definition ckind_index (k : ckind) : nat := match k with CBare => 0 | CParam => 1 end%nat.
+(** types, as far as the end of their text matters ([params]: the name has type parameters
+    "<...>"); members other than the last of unions / intersections and the arguments of
+    function types do not matter and are not represented *)
+Inductive ty :=
+| TyName (params : bool)          (* T, T<P> *)
+| TyField (params : bool)         (* M.T, M.T<P> *)
+| TyFunType (r : ty)              (* (...) -> r *)
+| TyFunVariadic (r : ty)          (* (...) -> ...r *)
+| TyFunPack                       (* (...) -> (A, B) *)
+| TyFunGeneric                    (* (...) -> T... *)
+| TyUnion (last : ty)             (* A | last *)
+| TyInter (last : ty)             (* A & last *)
+| TyOptional                      (* T? *)
+| TyTypeOf                        (* typeof(e) *)
+| TyTable                         (* { ... } *)
+| TyArray                         (* { T } *)
+| TyParen                         (* (T) *)
+| TyString                        (* 'lit' *)
+| TyBool                          (* true / false *)
+| TyNil.                          (* nil *)
+
+Fixpoint ty_eqb (a b : ty) : bool :=
+  match a, b with
+  | TyName p, TyName q | TyField p, TyField q => Bool.eqb p q
+  | TyFunType x, TyFunType y | TyFunVariadic x, TyFunVariadic y
+  | TyUnion x, TyUnion y | TyInter x, TyInter y => ty_eqb x y
+  | TyFunPack, TyFunPack | TyFunGeneric, TyFunGeneric | TyOptional, TyOptional | TyTypeOf, TyTypeOf
+  | TyTable, TyTable | TyArray, TyArray | TyParen, TyParen | TyString, TyString | TyBool, TyBool
+  | TyNil, TyNil => true
+  | _, _ => false
+  end.
 
 Inductive expr :=
 | EAtom (a : N)
 | EBin (o : binop) (l r : expr)
 | EUn (u : unop) (e : expr)
 | EParen (e : expr)
-| ECast (e : expr) (k : ckind).
+| ECast (e : expr) (t : ty).
 
 (** tokens: "-" is ONE symbol, binary or unary by position *)
 Inductive opsym :=
 | SAnd | SOr | SEq | SNe | SLt | SLe | SGt | SGe | SPlus | SMinus | SStar | SSlash | SSlash2
 | SPercent | SCaret | SConcat | SHash | SNot.
-(** [KCast k] stands for the tokens of ":: type" *)
-Inductive ptok := KAtom (a : N) | KOp (s : opsym) | KLp | KRp | KCast (k : ckind).
+(** [KCast t] stands for the tokens of ":: type" *)
+Inductive ptok := KAtom (a : N) | KOp (s : opsym) | KLp | KRp | KCast (t : ty).
 
 Definition sym_of_binop (o : binop) : opsym :=
   match o with
@@ -93,19 +123,33 @@ Record ptable := {
   cast_bin : bool;                     (* TypeCastExpression::needs_parentheses(Binary) *)
   cast_un : bool;                      (* ... (Unary) *)
   cast_cast : bool;                    (* ... (TypeCast) *)
-  left_cast : binop -> ckind -> bool   (* o.left_needs_parentheses(TypeCast(_, type of kind k)) *)
+  left_cast : binop -> bool -> bool    (* o.left_needs_parentheses(TypeCast(_, T)) for [true], (.., T<P>) for [false] *)
 }.
 
 Definition wrap (b : bool) (e : expr) : expr := if b then EParen e else e.
 
+(** the type loop of [ends_with_type_cast_to_type_name_without_type_parameters], arm for arm
+    ([src/nodes/expressions/binary.rs]) *)
+Fixpoint trailing_bare (t : ty) : bool :=
+  match t with
+  | TyName params => negb params                 (* Type::Name(name) => !name.has_type_parameters() *)
+  | TyField params => negb params                (* Type::Field(field) => !field.get_type_name().has_type_parameters() *)
+  | TyFunType r => trailing_bare r               (* FunctionReturnType::Type(type) => type *)
+  | TyFunVariadic r => trailing_bare r           (* FunctionReturnType::VariadicTypePack(v) => v.get_type() *)
+  | TyFunPack | TyFunGeneric => false            (* TypePack(_) | GenericTypePack(_) => break false *)
+  | TyUnion last => trailing_bare last           (* Type::Union(u) => u.last_type() *)
+  | TyInter last => trailing_bare last           (* Type::Intersection(i) => i.last_type() *)
+  | TyOptional | TyTypeOf | TyTable | TyArray | TyParen | TyString | TyBool | TyNil => false
+  end.
+
 (** [ends_with_type_cast_to_type_name_without_type_parameters]: the walk down the RIGHT spine
-    of the tree (binary.right, unary operand, the cast itself); what is found there is judged by
-    the dumped [left_cast o] *)
+    of the tree (binary.right, unary operand, the cast itself, then the type loop); the
+    verdict is judged by the dumped [left_cast o] *)
 Fixpoint trailing_cast (T : ptable) (o : binop) (l : expr) : bool :=
   match l with
   | EBin _ _ r => trailing_cast T o r
   | EUn _ x => trailing_cast T o x
-  | ECast _ k => left_cast T o k
+  | ECast _ t => left_cast T o (trailing_bare t)
   | _ => false
   end.
 
@@ -129,7 +173,7 @@ Fixpoint parenthesize (T : ptable) (e : expr) : expr :=
     EBin o (wrap (left_needs T o l) (parenthesize T l)) (wrap (right_needs T o r) (parenthesize T r))
   | EUn u x => EUn u (wrap (operand_needs T u x) (parenthesize T x))
   | EParen x => EParen (parenthesize T x)
-  | ECast x k => ECast (wrap (cast_inner_needs T x) (parenthesize T x)) k
+  | ECast x t => ECast (wrap (cast_inner_needs T x) (parenthesize T x)) t
   end.
 
 (** printing without adding anything: [EParen] is the only source of parentheses *)
@@ -139,7 +183,7 @@ Fixpoint print_plain (e : expr) : list ptok :=
   | EBin o l r => print_plain l ++ KOp (sym_of_binop o) :: print_plain r
   | EUn u x => KOp (sym_of_unop u) :: print_plain x
   | EParen x => KLp :: print_plain x ++ [KRp]
-  | ECast x k => print_plain x ++ [KCast k]
+  | ECast x t => print_plain x ++ [KCast t]
   end.
 
 (** write_expression on the fragment *)
@@ -152,7 +196,7 @@ Fixpoint strip (e : expr) : expr :=
   | EBin o l r => EBin o (strip l) (strip r)
   | EUn u x => EUn u (strip x)
   | EParen x => strip x
-  | ECast x k => ECast (strip x) k
+  | ECast x t => ECast (strip x) t
   end.
 
 (** * the reference parser (specification) *)
@@ -179,17 +223,32 @@ Definition UNARY_PRIORITY : N := 8.
     priority above [lim]; [loop f lim e toks]: the "while next is a binary operator with
     priority above lim" part, [e] being the expression read so far.  [f] is fuel (depth of
     the calls, not tokens); running out of fuel is [None], as is a syntax error. *)
-(** Luau [parseAssertionExpr]: ONE optional ":: type" after a simple expression.  After a type
-    name without type parameters a following "<" belongs to the type (it starts its type
-    parameters): the text does not mean a comparison, which is an error here. *)
-Definition with_cast (e : expr) (t : list ptok) : option (expr * list ptok) :=
+(** SPECIFICATION (Luau type syntax): the text of the type ENDS with a type name that has no
+    type parameters.  [T<P>] ends with ">", [T?] with "?", [typeof(e)] and [(T)] and a type pack
+    with ")", a table or array type with a closing brace, a generic pack with "...", a string or
+    boolean singleton and [nil] with a literal; a function type ends like its return type, a
+    variadic pack [...T] like [T], a union / intersection like its last member. *)
+Fixpoint ends_with_type_name (t : ty) : bool :=
   match t with
-  | KCast k :: t' =>
-    match k, t' with
-    | CBare, KOp SLt :: _ => None
-    | _, _ => Some (ECast e k, t')
-    end
-  | _ => Some (e, t)
+  | TyName params | TyField params => negb params
+  | TyFunType r | TyFunVariadic r => ends_with_type_name r
+  | TyUnion last | TyInter last => ends_with_type_name last
+  | _ => false
+  end.
+
+(** Luau [parseAssertionExpr]: ONE optional ":: type" after a simple expression.  When the text
+    of the type ends with a type name without type parameters, a following "<" belongs to the
+    type (it starts type parameters): the text does not mean a comparison, an error here. *)
+Definition with_cast (e : expr) (toks : list ptok) : option (expr * list ptok) :=
+  match toks with
+  | KCast t :: toks' =>
+    if ends_with_type_name t then
+      match toks' with
+      | KOp SLt :: _ => None
+      | _ => Some (ECast e t, toks')
+      end
+    else Some (ECast e t, toks')
+  | _ => Some (e, toks)
   end.
 
 Definition parser := N -> list ptok -> option (expr * list ptok).
@@ -269,4 +328,4 @@ Definition mk_ptable (left_binary right_binary left_unary right_unary : list (li
      cast_bin := flag cast_inner 0;
      cast_un := flag cast_inner 1;
      cast_cast := flag cast_inner 2;
-     left_cast := fun o k => flag2 left_cast_rows (binop_index o) (ckind_index k) |}.
+     left_cast := fun o b => flag2 left_cast_rows (binop_index o) (if b then 0 else 1)%nat |}.
